@@ -130,6 +130,8 @@ def generate(tape, tier="quick"):
         if bufs and tape.chance(1, 2):
             # one time-buffering adapter with a memory limit of its own (its location still comes from the composition)
             sc["own_limit"] = {"at": bufs[tape.draw(len(bufs))], "limit": tape.choice([0, 8])}
+        # a location whose name contains blanks and brackets ("results [2024]/run[1]") is a directory like any other
+        sc["odd_location"] = tape.chance(1, 3)
         return sc
     slot = tape.choice(["output", "output", "next", "prev", "linear", "step", "avg", "sum", "sum_abs"])
     gridded = tape.chance(1, 2)
@@ -169,7 +171,7 @@ def generate(tape, tier="quick"):
             events.append(["PULL", ci, t])
     sc = {"engine": "X", "slot": slot, "grid": g, "masked": masked, "n_cons": n_cons, "events": events,
           "p": tape.choice(STEP_POS), "via_composition": tape.chance(1, 3), "slot_limit": tape.chance(1, 2),
-          "units": tape.choice(["m", "mm/d"])}
+          "units": tape.choice(["m", "mm/d"]), "odd_location": tape.chance(1, 3)}
     if tier == "thorough" and tape.chance(1, 3):
         sc["fault"] = {"op": tape.choice(["save", "load", "remove"]), "nth": tape.rng_int(1, 6)}
     return sc
@@ -326,10 +328,10 @@ def _sibling_composition(lim, root):
     from datetime import timedelta
     from finam.components import CallbackGenerator, DebugConsumer
     got = []
-    gen = CallbackGenerator({"o": (lambda t: float((t - dt(0)) / timedelta(hours=1)), fm.Info(time=None, grid=fm.NoGrid(), units=""))},
-                            dt(0), timedelta(hours=1))
-    con = DebugConsumer({"i": fm.Info(time=None, grid=fm.NoGrid(), units="")}, start=dt(0), step=timedelta(hours=3),
-                        callbacks={"i": lambda n, d, t: got.append(((t - dt(0)) / timedelta(hours=1), float(d.magnitude.reshape(-1)[0])))})
+    gen = CallbackGenerator({"o": (lambda t: float((t - dt(0)) / td(1)), fm.Info(time=None, grid=fm.NoGrid(), units=""))},
+                            dt(0), td(1))
+    con = DebugConsumer({"i": fm.Info(time=None, grid=fm.NoGrid(), units="")}, start=dt(0), step=td(3),
+                        callbacks={"i": lambda n, d, t: got.append(((t - dt(0)) / td(1), float(d.magnitude.reshape(-1)[0])))})
     comp = fm.Composition([gen, con], print_log=False, log_level=50, slot_memory_limit=lim, slot_memory_location=root)
     gen.outputs["o"] >> con.inputs["i"]
     return comp, got
@@ -349,7 +351,7 @@ def _run_sibling(sib):
 def execute_e1(sc):
     from ..monitor import run_e1
     viol = []
-    root = os.path.join(scratch_dir(), "spill-e1")
+    root = os.path.join(scratch_dir(), "results [2024]", "run[1] e1") if sc.get("odd_location") else os.path.join(scratch_dir(), "spill-e1")
     shutil.rmtree(root, ignore_errors=True)
     base = dict(sc, engine="E1")
     ref = run_e1(dict(base, mem_limit=None, own_limit=None), value_check=False)
@@ -424,7 +426,7 @@ def execute(sc):
     def v(oracle, kind, msg):
         viol.append({"oracle": oracle, "kind": kind, "msg": msg})
 
-    root = os.path.join(scratch_dir(), "spill")
+    root = os.path.join(scratch_dir(), "results [2024]", "run[1]") if sc.get("odd_location") else os.path.join(scratch_dir(), "spill")
     shutil.rmtree(root, ignore_errors=True)
     ref, prob, err, _ = run_once(sc, None, root)
     if err or prob:
